@@ -267,13 +267,19 @@ func master(ck Check, tier string, seed int64, only string) int {
 			defer func() { <-sem }()
 			release := acquireSlot(runtime.NumCPU())
 			defer release()
+			// the budget of a worker starts when it gets its slot (other checks may be using the machine)
+			dl := deadline
+			if w := time.Now().Add(budget); w.After(dl) {
+				dl = w
+			}
 			n := j.part.Shards
 			if n <= 0 {
 				n = 1
 			}
 			outf := filepath.Join(tmp, fmt.Sprintf("r%d.json", i))
 			cmd := exec.Command(self, "--worker", "--tier", tier, "--part", j.part.Name, "--shard", strconv.Itoa(j.shard), "--of", strconv.Itoa(n),
-				"--out", outf, "--deadline", strconv.FormatInt(deadline.Unix(), 10))
+				"--out", outf, "--deadline", strconv.FormatInt(dl.Unix(), 10))
+			cmd.SysProcAttr = &syscall.SysProcAttr{Pdeathsig: syscall.SIGKILL}
 			cmd.Env = append(os.Environ(), "GOMAXPROCS="+gomaxprocs(), fmt.Sprintf("VERIF_SEED=%d", seed))
 			logf := filepath.Join(tmp, fmt.Sprintf("r%d.log", i))
 			lf, _ := os.Create(logf)
